@@ -246,21 +246,21 @@ exec_whole = _mk(lambda s: (s['brush_ents'] or s['disps']) and (s['outputs'] or 
 
 
 SUBCHECKS = [
-    Sub('keyvalues', exec_keyvalues, strategy=_strat(cfg_keyvalues, min_ents=1), quick=800, thorough=30000, floor=300,
+    Sub('keyvalues', exec_keyvalues, strategy=_strat(cfg_keyvalues, min_ents=1), quick=800, thorough=20000, floor=300,
         must_hit=('hidden_ents', 'comments', 'logical_pos', 'nasty_keys', 'nasty_values', 'nodeid', 'preserve_ids', 'renumber_ids')),
-    Sub('outputs', exec_outputs, strategy=_strat(cfg_outputs, min_ents=1), quick=800, thorough=30000, floor=300,
+    Sub('outputs', exec_outputs, strategy=_strat(cfg_outputs, min_ents=1), quick=800, thorough=20000, floor=300,
         must_hit=('outputs', 'out_comma', 'out_esc_sep', 'inst_out', 'inst_in')),
-    Sub('fixups', exec_fixups, strategy=_strat(cfg_fixups, min_ents=1), quick=600, thorough=20000, floor=200,
+    Sub('fixups', exec_fixups, strategy=_strat(cfg_fixups, min_ents=1), quick=600, thorough=14000, floor=200,
         must_hit=('fixups', 'nasty_fixup_vars')),
-    Sub('membership', exec_membership, strategy=_strat(cfg_membership), quick=600, thorough=16000, floor=200,
+    Sub('membership', exec_membership, strategy=_strat(cfg_membership), quick=600, thorough=10000, floor=200,
         must_hit=('ent_groups', 'ent_vis', 'solid_groups', 'groups', 'visgroups', 'hidden_ents', 'hidden_solids', 'opt_minimal')),
-    Sub('brushes', exec_brushes, strategy=_strat(cfg_brushes), quick=500, thorough=16000, floor=150,
+    Sub('brushes', exec_brushes, strategy=_strat(cfg_brushes), quick=500, thorough=10000, floor=150,
         must_hit=('prisms', 'raw_solids', 'hidden_solids', 'world_brushes', 'brush_ents', 'strata_points', 'nasty_mats')),
-    Sub('displacements', exec_disps, strategy=_strat(cfg_disps), quick=400, thorough=6000, floor=80,
+    Sub('displacements', exec_disps, strategy=_strat(cfg_disps), quick=400, thorough=4000, floor=80,
         must_hit=('disps', 'multiblend_disps', 'disp_power_1', 'disp_power_2', 'opt_no_multiblend')),
-    Sub('meta', exec_meta, strategy=_strat(cfg_meta), quick=600, thorough=16000, floor=250,
+    Sub('meta', exec_meta, strategy=_strat(cfg_meta), quick=600, thorough=10000, floor=250,
         must_hit=('visgroups', 'nested_visgroups', 'cameras', 'cordons', 'viewports', 'inst_vis', 'opt_minimal')),
-    Sub('whole', exec_whole, strategy=_strat(cfg_whole), quick=300, thorough=8000, floor=60,
+    Sub('whole', exec_whole, strategy=_strat(cfg_whole), quick=300, thorough=5000, floor=60,
         must_hit=('brush_ents', 'disps', 'outputs', 'fixups', 'visgroups', 'groups', 'opt_minimal', 'opt_no_multiblend')),
     Sub('samples', _mk(lambda s: True), fixed=sample_cases, floor=1, must_hit=('sample',), quick_shards=1, thorough_shards=1),
 ]
